@@ -62,7 +62,7 @@ func (it *Interp) callBuiltin(b *ssa.Builtin, args []Value, cc *ssa.CallCommon, 
 			// handle overlap: read first
 			tmp := make([]Value, n)
 			for i := 0; i < n; i++ {
-				tmp[i] = src.c[i].load()
+				tmp[i] = it.loadCell(src.c[i])
 			}
 			for i := 0; i < n; i++ {
 				it.store(dst.c[i], tmp[i])
@@ -154,7 +154,7 @@ func (it *Interp) appendBuiltin(args []Value, cc *ssa.CallCommon) Value {
 		src, _ := args[1].Ref.(Slice)
 		add = make([]Value, src.n)
 		for i := 0; i < src.n; i++ {
-			add[i] = src.c[i].load()
+			add[i] = it.loadCell(src.c[i])
 		}
 	}
 	if len(add) == 0 {
@@ -182,7 +182,7 @@ func (it *Interp) appendBuiltin(args []Value, cc *ssa.CallCommon) Value {
 	}
 	ns := it.newSlice(et, need, newcap)
 	for i := 0; i < dst.n; i++ {
-		ns.c[i].storeRaw(dst.c[i].load())
+		ns.c[i].storeRaw(it.loadCell(dst.c[i]))
 	}
 	for i, v := range add {
 		ns.c[dst.n+i].storeRaw(v)
@@ -307,6 +307,9 @@ func (it *Interp) harnessCall(name string, fn *ssa.Function, args []Value) (Valu
 		return Value{}, true
 	case "vopt_maporder":
 		it.mapOrder = args[0].Bits != 0
+		return Value{}, true
+	case "vopt_goleak":
+		it.goLeak = true
 		return Value{}, true
 	case "vopt_budget":
 		it.stepBudget = int(args[0].Bits)
